@@ -523,6 +523,11 @@ def _shapes_heur(tier, prop=None):
         S.append(_group(meth + "-routes", [c(meth, "pair", PT, 2, hosting="specific", routes="sym"),
                                            c(meth, "pair", OG, 2, hosting="specific_positive", routes="sym")]))
         S.append(_group(meth + "-chain3", [c(meth, "chain3", HG, 2, hosting="positive", rnd="fixed")]))
+    # the second call on the same inputs explored symbolically too (elsewhere: native runs only, see h_heuristics)
+    S.append(_group("second-call", [
+        c("adhoc", "pair", HG, 2, hints="must1", max_perms=2, again=True), c("adhoc", "pair", FG, 1, hints="secp", max_perms=2, again=True),
+        c("heur_comhost", "pair", HG, 2, hosting="positive", rnd="fixed", again=True),
+        c("gh_cgdp", "pair", HG, 2, hosting="specific", rnd="fixed", again=True)]))
     if tier == "thorough":
         for meth in ("heur_comhost", "gh_cgdp"):
             S.append(_group(meth + "-chain3-any-tie-break", [c(meth, "chain3", HG, 2, hosting="positive")]))
